@@ -3589,8 +3589,9 @@ class SetInstance(object):
             except:
                 for undo_func in reversed(undo_funcs): undo_func()
                 raise
+        # for a one-to-many collection the reverse calls above have removed the items (and counted them) already
+        if setdata.count is not None: setdata.count -= len(items & setdata)
         setdata -= items
-        if setdata.count is not None: setdata.count -= len(items)
         added = setdata.added
         removed = setdata.removed
         if added: (items, setdata.added) = (items - added, added - items)
